@@ -139,7 +139,16 @@ def make_eval(exe, shim, files):
                         if out is not None:
                             bad = "exit 1 but an output file exists"
                     elif out and verdict in ("valid", "invalid") and not ref.startswith(out):
-                        bad = "exit 1 and the %d bytes written are not a prefix of the reference decoding" % len(out)
+                        # A block whose stored CRC is wrong is only known to be bad when its last byte has been
+                        # produced; the output buffers before that are already with the writer (at production sizes:
+                        # any block that decodes to more than 900000 bytes).  bzip2 behaves the same way.  So what may
+                        # precede the failure is the decoding with CRC comparison postponed.
+                        _, lenient = bzk.inspect(data, lenient_crc=True)
+                        if not lenient.startswith(out):
+                            bad = ("exit 1 and the %d bytes written are not a prefix of the sequential decoding "
+                                   "(CRC checks postponed)" % len(out))
+                        else:
+                            stats.extra["rc1-output-includes-bytes-of-a-bad-crc-block"] += 1
                     if not r.err.strip():
                         bad = bad or "exit 1 without a diagnostic"
                 if bad:
